@@ -124,21 +124,32 @@ impl Manifest {
             return Ok(vec![]);
         };
 
-        let mut data = String::new();
+        let mut data = Vec::new();
         file.seek(SeekFrom::Start(0)).await?;
         let mut reader = BufReader::new(file);
 
         // TODO: don't read all to memory
-        reader.read_to_string(&mut data).await?;
+        reader.read_to_end(&mut data).await?;
 
-        let stream = Deserializer::from_str(&data).into_iter::<ManifestOperation>();
+        let stream = Deserializer::from_slice(&data).into_iter::<ManifestOperation>();
 
         let mut ops = vec![];
         let mut buffered_ops = vec![];
         let mut begin = false;
 
         for value in stream {
-            let value = value?;
+            let value = match value {
+                Ok(value) => value,
+                // A crash (or a short write) during `append` leaves an incomplete record at the
+                // end of the file. The transaction it belongs to was never acknowledged: stop
+                // here, the unterminated transaction is dropped below. (Garbage anywhere else is
+                // a syntax error, not EOF, and still fails.)
+                Err(e) if e.is_eof() => {
+                    warn!("manifest: ignore incomplete record at the end");
+                    break;
+                }
+                Err(e) => return Err(e.into()),
+            };
             match value {
                 ManifestOperation::Begin => begin = true,
                 ManifestOperation::End => {
